@@ -19,10 +19,12 @@ type c13Oracle struct {
 	RemovedByGov bool
 	RemovedAt   time.Time
 	SlashedOnce bool
+	JoinHeight  int64 // height at which the oracle last came online (model's own record)
 }
 
 type c13Model struct {
 	or        map[string]map[string]*c13Oracle // chain -> oracle bech32
+	slashedSeen bool
 	supplyPre sdkmath.Int
 	balPre    map[string]sdk.Coins
 }
@@ -52,6 +54,21 @@ func (m *c13Model) before(r *Run, s *Step) {
 			m.balPre["d:"+ch.Name+":"+k.Bech()] = w.App.BankKeeper.GetAllBalances(ctx, da)
 		}
 	}
+}
+
+// anySlashed: once any validator has been slashed, stake may have lost value at one validator
+// and been moved to another; token comparisons are then skipped for the rest of the run.
+func (m *c13Model) anySlashed(r *Run) bool {
+	if m.slashedSeen {
+		return true
+	}
+	vals, _ := r.W.App.StakingKeeper.GetAllValidators(r.W.Ctx())
+	for _, v := range vals {
+		if !v.Tokens.Equal(v.DelegatorShares.TruncateInt()) || !v.DelegatorShares.IsInteger() {
+			m.slashedSeen = true
+		}
+	}
+	return m.slashedSeen
 }
 
 func (m *c13Model) get(chain, oracle string) *c13Oracle {
@@ -121,6 +138,7 @@ func (m *c13Model) check(r *Run, c *bridgeChecks, s *Step, o *Outcome) []Violati
 			}
 			mo := m.get(ch.Name, ob)
 			mo.Stake, mo.Known, mo.RemovedByGov = amt, true, false
+			mo.JoinHeight = w.Height
 			r.Probe("bond-ok")
 			if r.StepNo > 0 {
 				r.Nontrivial = true
@@ -153,6 +171,7 @@ func (m *c13Model) check(r *Run, c *bridgeChecks, s *Step, o *Outcome) []Violati
 				}
 				if !prev.Online && np.Online {
 					r.Probe("oracle-back-online")
+					mo.JoinHeight = w.Height
 				}
 			}
 			r.Nontrivial = true
@@ -170,7 +189,7 @@ func (m *c13Model) check(r *Run, c *bridgeChecks, s *Step, o *Outcome) []Violati
 				vs = append(vs, viol("penalty-once", "penalty-exceeds-stake", "%s: oracle %s penalty above stake", ch.Name, or.OracleAddress))
 			}
 			// delegated on its behalf (while online and the validator was never slashed)
-			if or.Online && !mo.RemovedByGov {
+			if or.Online && !mo.RemovedByGov && !m.anySlashed(r) {
 				val, err := w.App.StakingKeeper.GetValidator(ctx, or.GetValidator())
 				if err == nil && val.Tokens.Equal(val.DelegatorShares.TruncateInt()) && val.DelegatorShares.IsInteger() {
 					del, err := w.App.StakingKeeper.GetDelegation(ctx, or.GetDelegateAddress(ch.Name), or.GetValidator())
@@ -212,6 +231,10 @@ func (m *c13Model) check(r *Run, c *bridgeChecks, s *Step, o *Outcome) []Violati
 				if or.SlashTimes != prev.SlashTimes+1 {
 					vs = append(vs, viol("penalty-once", "slash-times-jump", "%s: oracle %s slash times %d -> %d in one step", ch.Name, or.OracleAddress, prev.SlashTimes, or.SlashTimes))
 				}
+				// the join height is the model's own record (bond / coming back online), not the stored field
+				if mo := m.get(ch.Name, or.OracleAddress); mo.Known && mo.JoinHeight > prev.StartHeight {
+					prev.StartHeight = mo.JoinHeight
+				}
 				if !m.hasWitness(pre, post, prev, uint64(w.Height)) {
 					vs = append(vs, viol("slash-justified", "no-unconfirmed-object", "%s: oracle %s (start height %d) went offline at height %d without an object it left unconfirmed for the signed window %d", ch.Name, or.OracleAddress, prev.StartHeight, w.Height, pre.Params.SignedWindow))
 				}
@@ -242,10 +265,7 @@ func (m *c13Model) check(r *Run, c *bridgeChecks, s *Step, o *Outcome) []Violati
 				got := w.App.BankKeeper.GetBalance(ctx, w.KeyByName(t.Tx.S).Acc(), "FX").Amount.Sub(m.balPre[ob].AmountOf("FX"))
 				// the stake must come back: everything it transferred minus penalties (validator slashing aside)
 				want := mo.Stake.Sub(pen)
-				valSlashed := false
-				if val, err := w.App.StakingKeeper.GetValidator(ctx, prev.GetValidator()); err == nil && !val.Tokens.Equal(val.DelegatorShares.TruncateInt()) {
-					valSlashed = true
-				}
+				valSlashed := m.anySlashed(r)
 				if got.LT(want) && !valSlashed {
 					// where is the stake?
 					where := "nowhere"
@@ -365,10 +385,7 @@ func (m *c13Model) finish(r *Run, c *bridgeChecks) []Violation {
 			continue
 		}
 		got := w.App.BankKeeper.GetBalance(w.Ctx(), cd.key.Acc(), "FX").Amount.Sub(before)
-		valSlashed := false
-		if val, err := w.App.StakingKeeper.GetValidator(w.Ctx(), prev.GetValidator()); err == nil && !val.Tokens.Equal(val.DelegatorShares.TruncateInt()) {
-			valSlashed = true
-		}
+		valSlashed := m.anySlashed(r)
 		if got.LT(want) && !valSlashed {
 			vs = append(vs, viol("unbond-once", "payout-below-stake", "%s: oracle %d unbonded after maturity and received %s, stake minus penalties is %s", cd.ch.Name, cd.i, got, want))
 		}
